@@ -46,6 +46,9 @@ def run(ctx):
     rule_definite_init(ctx)
     rule_escape_order(ctx)
     rule_step_quoting(ctx)
+    rule_token_domain(ctx)
+    rule_float_literal_form(ctx)
+    rule_path_step_kinds(ctx)
 
 
 def grammar_dir():
@@ -82,6 +85,14 @@ def grammar(version):
         if isinstance(n, ast.ClassDef) and n.name.endswith("Context"):
             if any(isinstance(m, ast.FunctionDef) and m.name == "NOT" for m in n.body):
                 out["not_rules"].add(n.name[:-len("Context")])
+            # token accessors: def X(self[, i]): return self.getToken(STIXPatternParser.X, ...)
+            toks = set()
+            for m in n.body:
+                if isinstance(m, ast.FunctionDef) and any(
+                        isinstance(c, ast.Call) and isinstance(c.func, ast.Attribute) and c.func.attr in ("getToken", "getTokens")
+                        for c in ast.walk(m)):
+                    toks.add(m.name)
+            out.setdefault("tokens", {})[n.name[:-len("Context")]] = toks
         if isinstance(n, ast.Assign) and isinstance(n.targets[0], ast.Name) and n.targets[0].id in ("literalNames", "symbolicNames") \
                 and isinstance(n.value, ast.List):
             vals = [e.value for e in n.value.elts if isinstance(e, ast.Constant)]
@@ -481,3 +492,134 @@ def rule_step_quoting(ctx):
         run.check(st is not None and "quote_if_needed(self.property_name)" in norm(st.node), R, key(rel, cname, "uses-quoting"),
                   "path component does not print through quote_if_needed", file=rel, line=k.node.lineno, function=cname,
                   expected="quote_if_needed(self.property_name)", found=short(st.node, 120) if st else None)
+
+
+def terminal_table(prog):
+    """token name -> model class name, read from the if-chain of visitTerminal"""
+    fi = visitor(prog).methods.get("visitTerminal")
+    if fi is None:
+        raise AnalysisError("anchor missing: visitTerminal")
+    table = {}
+    for n in body_walk(fi.node):
+        if not isinstance(n, ast.If):
+            continue
+        toks = [x.attr for x in ast.walk(n.test) if isinstance(x, ast.Attribute) and isinstance(x.value, ast.Attribute)
+                and x.value.attr == "parser_class"]
+        if not toks:
+            continue
+        insts = [c for s_ in n.body for c in walk_no_nested(s_) if isinstance(c, ast.Call) and call_simple_name(c) == "instantiate"
+                 and c.args and isinstance(c.args[0], ast.Constant)]
+        for t in toks:
+            for c in insts:
+                table.setdefault(t, set()).add(c.args[0].value)
+    if len(table) < 8:
+        raise AnalysisError("visitTerminal: token table not recognised (%d tokens)" % len(table))
+    return table
+
+
+QUALIFIER_RULES = {"WithinQualifier": "WithinQualifier", "RepeatedQualifier": "RepeatQualifier", "StartStopQualifier": "StartStopQualifier"}
+
+
+def rule_token_domain(ctx):
+    """Producer/consumer agreement: every literal token the grammar allows in a qualifier becomes (visitTerminal) a constant
+    class; the qualifier's constructor must accept each of them, or a VALID pattern (WITHIN 1.5 SECONDS) is refused."""
+    run = ctx.run
+    prog = ctx.prog
+    R = "C10.token-domain"
+    vis = visitor(prog)
+    table = terminal_table(prog)
+    for ver in ("2.0", "2.1"):
+        g = grammar(ver)
+        for rule, default_cls in sorted(QUALIFIER_RULES.items()):
+            toks = g.get("tokens", {}).get(rule)
+            if toks is None:
+                raise AnalysisError("grammar oracle: rule context %s not found (%s)" % (rule, ver))
+            vm = vis.methods.get("visit" + rule)
+            if vm is None:
+                continue        # C10.visitor-exhaustive reports it
+            inst = [c for c in body_walk(vm.node) if isinstance(c, ast.Call) and call_simple_name(c) == "instantiate" and c.args
+                    and isinstance(c.args[0], ast.Constant)]
+            cname = inst[0].args[0].value if inst else default_cls
+            cls = prog.cls("%s::%s" % (PAT, cname))
+            init = prog.class_attr(cls, "__init__")
+            if not isinstance(init, FunctionInfo):
+                raise AnalysisError("%s has no constructor" % cname)
+            accepted = set()
+            open_ended = True
+            for x in body_walk(init.node):
+                if isinstance(x, ast.Call) and call_simple_name(x) == "isinstance" and len(x.args) == 2:
+                    elts = x.args[1].elts if isinstance(x.args[1], ast.Tuple) else [x.args[1]]
+                    accepted |= {norm(e).split(".")[-1] for e in elts}
+            # an else branch that raises closes the domain
+            open_ended = not any(isinstance(r_, ast.Raise) for r_ in body_walk(init.node))
+            produced = set()
+            for t in sorted(toks):
+                produced |= table.get(t, set())
+            missing = sorted(k for k in produced if k not in accepted) if not open_ended else []
+            run.check(not missing, R, key(cls.module.relpath, cname, "%s:accepts-every-grammar-literal" % ver),
+                      "the %s grammar allows %s in %s, which the visitor turns into %s, but %s.__init__ refuses %s: a valid "
+                      "pattern cannot be parsed into the model" % (ver, sorted(t for t in toks if t in table), rule[0].lower() + rule[1:],
+                                                                  sorted(produced), cname, missing),
+                      file=cls.module.relpath, line=init.node.lineno, function=cname, expected="accepts %s" % sorted(produced),
+                      found="accepts %s" % sorted(accepted))
+    run.floor(R, 6)
+
+
+def rule_float_literal_form(ctx):
+    """FloatLiteral of the grammar is [+-]? [0-9]* '.' [0-9]+ : no exponent.  str()/repr()/'%s' of a Python float switches
+    to exponent notation below 1e-4 and from 1e16, so a printer that uses it unguarded writes text that does not parse."""
+    run = ctx.run
+    prog = ctx.prog
+    R = "C10.float-literal-form"
+    cls = prog.cls(PAT + "::FloatConstant")
+    st = cls.methods.get("__str__")
+    init = cls.methods.get("__init__")
+    if st is None or init is None:
+        raise AnalysisError("anchor missing: FloatConstant.__init__/__str__")
+    is_float = any(isinstance(a, ast.Assign) and norm(a.targets[0]) == "self.value" and isinstance(a.value, ast.Call)
+                   and call_simple_name(a.value) == "float" for a in body_walk(init.node))
+    txt = norm(st.node)
+    plain = [x for x in body_walk(st.node) if (isinstance(x, ast.BinOp) and isinstance(x.op, ast.Mod) and isinstance(x.left, ast.Constant)
+                                               and x.left.value in ("%s", "%r") and "self.value" in norm(x.right))
+             or (isinstance(x, ast.Call) and call_simple_name(x) in ("str", "repr") and x.args and norm(x.args[0]) == "self.value")
+             or (isinstance(x, ast.Call) and isinstance(x.func, ast.Attribute) and x.func.attr == "format" and isinstance(x.func.value, ast.Constant)
+                 and x.func.value.value in ("{}", "{0}", "{!r}", "{!s}") and x.args and norm(x.args[0]) == "self.value")
+             or (isinstance(x, ast.JoinedStr) and norm(x) in ("f'{self.value}'", "f'{self.value!r}'", "f'{self.value!s}'"))]
+    # accepted: the exponent form is detected and re-expanded, or a fixed-point formatter is used throughout
+    handles_exp = ("'e' in" in txt or "'E' in" in txt) and ("Decimal" in txt or "'f'" in txt or "%f" in txt)
+    fixed_only = not plain
+    run.check(is_float and (fixed_only or handles_exp), R, key(cls.module.relpath, "FloatConstant.__str__", "no-exponent-notation"),
+              "FloatConstant prints str(float): values below 1e-4 or from 1e16 are written in exponent notation (1e-07), which "
+              "the pattern grammar does not have -- a valid pattern [a:b = 0.0000001] prints to text that no longer parses",
+              file=cls.module.relpath, line=st.node.lineno, function="FloatConstant.__str__",
+              expected="fixed-point text (exponent form expanded, e.g. through decimal.Decimal)", found=short(st.node, 200))
+
+
+def rule_path_step_kinds(ctx):
+    """visitObjectPath receives, per key step, either a BasicObjectPathComponent or (quoted step) a StringConstant -- see
+    visitKeyPathStep.  `.property_name` exists only on the former: every read must sit under the isinstance test."""
+    run = ctx.run
+    prog = ctx.prog
+    R = "C10.path-step-kinds"
+    vis = visitor(prog)
+    fi = vis.methods.get("visitObjectPath")
+    ks = vis.methods.get("visitKeyPathStep")
+    if fi is None or ks is None:
+        raise AnalysisError("anchor missing: visitObjectPath / visitKeyPathStep")
+    returns_const = any(isinstance(r_, ast.Return) and any(pol and "isinstance" in norm(t) and "StringConstant" in norm(t)
+                                                           for t, pol, _ in guard_chain(r_)) for r_ in body_walk(ks.node))
+    n = 0
+    for x in body_walk(fi.node):
+        if not (isinstance(x, ast.Attribute) and x.attr == "property_name" and isinstance(x.value, ast.Name) and isinstance(x.ctx, ast.Load)):
+            continue
+        n += 1
+        v = x.value.id
+        guarded = any(pol and isinstance(t, ast.Call) and call_simple_name(t) == "isinstance" and norm(t.args[0]) == v
+                      and "BasicObjectPathComponent" in norm(t.args[1]) for t, pol, _ in guard_chain(x))
+        run.check(guarded or not returns_const, R, key(fi.module.relpath, fi.qualname, "property_name-read:%d" % n),
+                  "AttributeError for a valid pattern: a quoted path step reaches visitObjectPath as a StringConstant (visitKeyPathStep "
+                  "returns it as is) and `.property_name` is read from it without the isinstance test its sibling branch has -- "
+                  "e.g. [a:b.'c d'[*].e = 1]", file=fi.module.relpath, line=x.lineno, function=fi.qualname,
+                  expected="%s.property_name if isinstance(%s, BasicObjectPathComponent) else str(%s)" % (v, v, v), found=short(x.parent if hasattr(x, "parent") else x))
+    if n < 2:
+        raise AnalysisError("visitObjectPath: fewer than 2 reads of .property_name found")
